@@ -378,10 +378,15 @@ def known_findings(pid):
     """KNOWN_FINDINGS.txt: 'finding: property=CNN id=<slug> classifier=<name> witness=<path> :: text'
     and 'fixed: property=CNN <commit> <text>' (fixed lines suppress nothing)."""
     res = []
-    path = os.path.join(VERIF, "KNOWN_FINDINGS.txt")
-    if not os.path.exists(path):
-        return res
-    for line in open(path):
+    paths = [os.path.join(VERIF, "KNOWN_FINDINGS.txt")]
+    fd = os.path.join(VERIF, "findings.d")   # committed per-property parts of the same list
+    if os.path.isdir(fd):
+        paths += [os.path.join(fd, f) for f in sorted(os.listdir(fd)) if f.endswith(".txt")]
+    lines = []
+    for path in paths:
+        if os.path.exists(path):
+            lines += open(path).read().splitlines()
+    for line in lines:
         line = line.strip()
         if not line.startswith("finding:"):
             continue
